@@ -373,6 +373,7 @@ impl<'s, 'x> SentenceIter<'s, 'x> {
     }
 // R11: `impl Iterator for SentenceIter { fn next }` verified as an inherent fn
 //@extract sudachi/src/sentence_splitter.rs :: impl<'s, 'x> Iterator for SentenceIter<'s, 'x> :: fn next
+//@  twin
 //@  rw R11 1 custom
 //@  | Option<Self::Item>
 //@  > Option<(Range<usize>, &'s str)>
